@@ -122,6 +122,11 @@ func (t *PageTree) Count() (int, error) {
 		return 0, fmt.Errorf("invalid /Count type: %T", countObj)
 	}
 
+	// /Count comes from the file; callers size slices with it
+	if count < 0 || count > maxPageTreeNodes {
+		return 0, fmt.Errorf("invalid /Count value: %d", count)
+	}
+
 	return int(count), nil
 }
 
